@@ -1014,6 +1014,23 @@ pub fn gen_case(family: &str, seed: u64, idx: usize) -> Case {
                         ],
                     )
                 }
+                6 => {
+                    // a filter-set object of more than 8 KiB (one response item larger than any small
+                    // read buffer): an mp-filter listing 900 prefixes
+                    let mut db = small_db();
+                    let many: Vec<(Pfx, Op)> = (0..900u32)
+                        .map(|k| (p(&format!("10.{}.{}.0/24", k / 250, k % 250)), Op::None))
+                        .collect();
+                    db.filter_sets = vec![("FLTR-BIG".into(), vec![Some(Expr::Lit(many, Op::None))])];
+                    return mk(
+                        Runner::Lib,
+                        db,
+                        vec![
+                            item("p0", Expr::FilterSet("FLTR-BIG".into())),
+                            item("p1", Expr::AsSet("AS-S0".into(), Op::None)),
+                        ],
+                    );
+                }
                 _ => {}
             }
             let g = GenOpts {
@@ -2282,7 +2299,11 @@ pub fn main(opts: &Opts) {
         });
     }
 
-    let results = run_pool(jobs, 8, move |j: Job| {
+    // thread-level watchdog: an evaluation that never returns (a read loop that makes no progress)
+    // is reported as that case; its thread is abandoned
+    let meta: Vec<(Case, Vec<String>, Vec<Pfx>)> =
+        jobs.iter().map(|j| (j.case.clone(), j.texts.clone(), j.probes.clone())).collect();
+    let results = run_pool_watchdog_opt(jobs, 8, std::time::Duration::from_secs(60), 4, move |j: Job| {
         if j.bad_model {
             return (
                 j.case,
@@ -2311,6 +2332,23 @@ pub fn main(opts: &Opts) {
         };
         (j.case, j.texts, j.probes, obs)
     });
+    let results: Vec<(Case, Vec<String>, Vec<Pfx>, Obs)> = results
+        .into_iter()
+        .zip(meta)
+        .filter_map(|(r, (case, texts, probes))| match r {
+            Ok(x) => Some(x),
+            Err(Stuck::Timeout) => Some((
+                case,
+                texts,
+                probes,
+                Obs {
+                    note: "evaluation did not return within 60s".into(),
+                    ..Default::default()
+                },
+            )),
+            Err(Stuck::Skipped) => None,
+        })
+        .collect();
 
     // family c03: the model's verdict on which candidates cannot be evaluated
     let c03_lines: Vec<String> = results
